@@ -265,11 +265,16 @@ def minimise(chk, runner: Runner, p: dict, envs: list[dict], aspect: str, key):
     """Greedy removal of declarations (then of the option) while the same difference is still observed; every round
     of candidates is judged by one TLC run."""
     rnd = [0]
+    proven: dict[str, tuple] = {}      # content of a candidate -> (BAD object, records) of the round that showed it failing
+    content = lambda decls, layout: json.dumps([decls, layout], sort_keys=True)
 
     def batch(cands):
         rnd[0] += 1
         cs = [(dict(p, decls=[d for d, _ in c], layout=[l for _, l in c]), _fit(envs, c, [l for _, l in c])) for c in cands]
-        res, _ = fails_batch(chk, runner, cs, aspect, f"min{rnd[0]}-", key)
+        res, recs = fails_batch(chk, runner, cs, aspect, f"min{rnd[0]}-", key)
+        for (c, _), x in zip(cs, res):
+            if x is not None:
+                proven[content(c["decls"], c["layout"])] = (x, recs)
         return [x is not None for x in res]
 
     kept = pd.minimise_list(list(zip(p["decls"], p["layout"])), batch)
@@ -280,6 +285,10 @@ def minimise(chk, runner: Runner, p: dict, envs: list[dict], aspect: str, key):
     res, recs = fails_batch(chk, runner, [(f, envs) for f in finals], aspect, "final-", key)
     if len(finals) == 2 and res[1] is not None:
         return finals[1], envs, res[1], recs
+    if res[0] is None and content(cur["decls"], cur["layout"]) in proven:
+        # the difference is probabilistic: this round did not show it, the round that accepted the candidate did
+        bad, recs = proven[content(cur["decls"], cur["layout"])]
+        return cur, envs, bad, recs
     return cur, envs, res[0], recs
 
 
